@@ -82,16 +82,16 @@ def sh(cmd, cwd=None, env=None, timeout=None, input=None):
 # ---------------------------------------------------------------------------------------------
 # builds
 
-def target_dir(fs, profile="release"):
-    return os.path.join(CACHE, "target", fs)
+def target_dir(fs, profile="release", group="base"):
+    return os.path.join(CACHE, "target", fs if group == "base" else "%s@%s" % (fs, group))
 
 
-def bin_path(fs, name, profile="release"):
-    return os.path.join(target_dir(fs), profile, name)
+def bin_path(fs, name, profile="release", group="base"):
+    return os.path.join(target_dir(fs, profile, group), profile, name)
 
 
-def build_harness(fs, profile="release", bins=("run", "dump")):
-    """cargo-build the harness against /repo's current working tree for one feature set."""
+def build_harness(fs, profile="release", bins=("run", "dump"), group="base"):
+    """cargo-build the harness against /repo's current working tree for one feature set and format group."""
     feats = FEATURE_SETS[fs]
     cmd = ["cargo", "build", "--offline", "--profile", profile, "--no-default-features"]
     if feats:
@@ -99,18 +99,20 @@ def build_harness(fs, profile="release", bins=("run", "dump")):
     for b in bins:
         cmd += ["--bin", b]
     env = dict(ENV)
-    env["CARGO_TARGET_DIR"] = target_dir(fs)
+    env["CARGO_TARGET_DIR"] = target_dir(fs, profile, group)
+    if group != "base":
+        env["LEXVERIF_FORMATS"] = os.path.join(HARNESS, "formats-%s.txt" % group)
     rc, out = sh(cmd, cwd=HARNESS, env=env)
     if rc != 0:
-        raise Broken("harness-build[%s,%s]" % (fs, profile), out[-6000:])
-    return bin_path(fs, "run", profile)
+        raise Broken("harness-build[%s,%s,%s]" % (fs, profile, group), out[-6000:])
+    return bin_path(fs, "run", profile, group)
 
 
-def build_many(sets, profile="release"):
+def build_many(sets, profile="release", group="base"):
     """build several feature sets in parallel"""
     from concurrent.futures import ThreadPoolExecutor
     with ThreadPoolExecutor(max_workers=4) as ex:
-        futs = {fs: ex.submit(build_harness, fs, profile) for fs in sets}
+        futs = {fs: ex.submit(build_harness, fs, profile, ("run", "dump"), group) for fs in sets}
         return {fs: f.result() for fs, f in futs.items()}
 
 
